@@ -91,3 +91,19 @@ Definition v_cover (n1 n2 : nat) (dtrue : list (list Z)) (rads : list Z) (e : Z)
   verdict true
           (cover_contract_b n1 n2 (mat dtrue) (rad_of rads) (2 ^ e) (lfun 0 tri) (lfun [] cover)
            && forallb nodup_z_b cover && dupfree).
+
+(* long pair files (more rows than any reader buffer): rows read back against the rows of the
+   in-memory call, with the printed-and-parsed distance listed per row; linear time, no
+   comparison with true separations (those are checked on the small problems) *)
+(* a row with its indices as primitive integers (a nat literal costs its value in parsing time) *)
+Definition rowi (i j : int) (d : list int) : triple :=
+  (Z.to_nat (Uint63.to_Z i), Z.to_nat (Uint63.to_Z j), zl d).
+Fixpoint write_rows (mem : list triple) (rts : list Z) : list triple :=
+  match mem, rts with
+  | t :: m, d :: r => (t_i1 t, t_i2 t, d) :: write_rows m r
+  | _, _ => []
+  end.
+Definition v_file_long (mem file : list triple) (rts : list (list int)) (count : Z) : Z :=
+  verdict (list_eqb triple_eqb (read_pairs (write_rows mem (zls rts))) file
+           && (Z.of_nat (length mem) =? count) && (length rts =? length mem)%nat)
+          (same_pairs_b file mem && (count =? Z.of_nat (length mem))).
